@@ -1,4 +1,235 @@
 import Ptn.C11.Model
-/-! Property theorems for C11. Only property theorems and non-vacuity examples live here. -/
+import Ptn.C11.Spec
+import Ptn.C11.Lemmas
+import Ptn.C11.MatrixLemmas
+/-! Property theorems for C11 (index logic of tensor QR / SVD).  Only property theorems and
+non-vacuity examples live here; helper lemmas are in `Lemmas.lean` / `MatrixLemmas.lean`, the
+specification vocabulary (`Bipartition`, `qrBond`, `qrPad`, `svdBonds`) in `Spec.lean`.
+
+All shape theorems quantify over EVERY shape `sh : List Nat` (any order, dimension-1 and even
+dimension-0 legs) and EVERY ordered bipartition `(q, r)` of its axes (`Bipartition sh q r`: `q ++ r`
+is a permutation of `0 … order-1`; either side may be empty, any order inside a side).  The dims of
+a side are introduced by `dimsOf sh q = some qd` (no totalised indexing). -/
 namespace Ptn.C11
+
+/-- **Matricisation is legal.**  The transposition is a permutation of the axes, the two groups are
+    the dims of `q` and of `r` in the given order, and their products multiply to the size of the
+    tensor, so `np.reshape` to `(rows, cols)` is legal. -/
+theorem matricize_perm (sh q r : List Nat) (h : Bipartition sh q r) :
+    ∃ qd rd, dimsOf sh q = some qd ∧ dimsOf sh r = some rd ∧
+      matricize sh q r = some ⟨qd ++ rd, prod qd, prod rd⟩ ∧
+      (qd ++ rd).Perm sh ∧ prod qd * prod rd = prod sh := by
+  obtain ⟨h1, h2, h3, h4, h5⟩ := matricize_ok sh q r h
+  exact ⟨_, _, h1, h2, h3, h4, h5⟩
+
+/-- The library accepts exactly the ordered bipartitions: anything else (wrong number of legs, a
+    repeated or out-of-range leg) is rejected by the assertion / `np.transpose`. -/
+theorem matricize_accepts_iff (sh q r : List Nat) :
+    (∃ m, matricize sh q r = some m) ↔ Bipartition sh q r := by
+  constructor
+  · rintro ⟨m, hm⟩
+    apply Classical.byContradiction
+    intro hn
+    rw [matricize_none_of_not sh q r hn] at hm
+    exact absurd hm (by simp)
+  · intro h
+    exact ⟨_, (matricize_ok sh q r h).2.2.1⟩
+
+/-- **QR: shapes and leg orders.**  First factor: the `q` legs in the given order, then the new bond;
+    second factor: the bond first, then the `r` legs in the given order.  (KEEP needs a non-empty
+    second side.) -/
+theorem qr_shapes (mode : Mode) (sh q r : List Nat) (h : Bipartition sh q r)
+    (hk : mode = .keep → r ≠ []) :
+    ∃ qd rd res, dimsOf sh q = some qd ∧ dimsOf sh r = some rd ∧ tensorQR mode sh q r = some res ∧
+      res.q.shape = qd ++ [res.bond] ∧ res.q.legs = q.map Leg.orig ++ [Leg.bond] ∧
+      res.r.shape = res.bond :: rd ∧ res.r.legs = Leg.bond :: r.map Leg.orig := by
+  obtain ⟨h1, h2, _⟩ := matricize_ok sh q r h
+  exact ⟨_, _, _, h1, h2, tensorQR_some mode sh q r h hk, rfl, rfl, rfl, rfl⟩
+
+/-- **QR: the bond dimension each mode prescribes** for an `m × n` matricisation: REDUCED
+    `min m n`, FULL `m`, KEEP `n` (the product of the dims of the `r` legs), with `pad` zero
+    columns/rows in KEEP. -/
+theorem qr_bond_dim (mode : Mode) (sh q r : List Nat) (h : Bipartition sh q r)
+    (hk : mode = .keep → r ≠ []) :
+    ∃ qd rd res, dimsOf sh q = some qd ∧ dimsOf sh r = some rd ∧ tensorQR mode sh q r = some res ∧
+      res.bond = qrBond mode (prod qd) (prod rd) ∧ res.pad = qrPad mode (prod qd) (prod rd) := by
+  obtain ⟨h1, h2, _⟩ := matricize_ok sh q r h
+  exact ⟨_, _, _, h1, h2, tensorQR_some mode sh q r h hk, rfl, rfl⟩
+
+/-- **KEEP never needs negative padding**: the returned bond is NumPy's `min m n` plus a
+    non-negative number of zero columns, and it equals `n`.  (So the `np.pad` call can only fail
+    for an empty second side, see `empty_side_r`.) -/
+theorem keep_pad_nonneg (sh q r : List Nat) (h : Bipartition sh q r) (hr : r ≠ []) :
+    ∃ qd rd res, dimsOf sh q = some qd ∧ dimsOf sh r = some rd ∧ tensorQR .keep sh q r = some res ∧
+      res.bond = min (prod qd) (prod rd) + res.pad ∧ res.bond = prod rd := by
+  obtain ⟨h1, h2, _⟩ := matricize_ok sh q r h
+  refine ⟨_, _, _, h1, h2, tensorQR_some .keep sh q r h (fun _ => hr), ?_, rfl⟩
+  simp only [qrBond, qrPad]; omega
+
+/-- **KEEP with a single R-leg** returns a Q with the shape of the input transposed so that this
+    leg is last; if the leg already is the last one and the others are in natural order, Q has
+    exactly the input's shape. -/
+theorem keep_shape_single_leg (sh q : List Nat) (j : Nat) (h : Bipartition sh q [j]) :
+    ∃ res, tensorQR .keep sh q [j] = some res ∧
+      transposeByLegList sh q [j] = some res.q.shape ∧
+      (q ++ [j] = List.range sh.length → res.q.shape = sh) := by
+  have hT := transpose_ok sh q [j] h
+  refine ⟨_, tensorQR_some .keep sh q [j] h (fun _ => by simp), ?_, ?_⟩
+  · simp only [qrBond, List.map_cons, List.map_nil, prod_singleton]
+    exact hT
+  · intro hrange
+    have : (q ++ [j]).map (dimAt sh) = sh := by rw [hrange]; exact map_dimAt_range sh
+    simpa [qrBond, prod_singleton] using this
+
+/-- **Empty first side**: the matricisation is a `1 × size` row; Q is a one-leg tensor carrying only
+    the bond — of dimension 1 for REDUCED and FULL (for REDUCED: `min 1 size`, which is 1 unless a
+    leg has dimension 0), `size` for KEEP — and R carries all legs behind the bond. -/
+theorem empty_side_q (mode : Mode) (sh r : List Nat) (h : Bipartition sh [] r)
+    (hk : mode = .keep → r ≠ []) :
+    ∃ rd res, dimsOf sh r = some rd ∧ rd.Perm sh ∧ tensorQR mode sh [] r = some res ∧
+      res.q.shape = [res.bond] ∧ res.q.legs = [Leg.bond] ∧ res.r.shape = res.bond :: rd ∧
+      res.bond = (match mode with | .reduced => min 1 (prod sh) | .full => 1 | .keep => prod sh) ∧
+      ((∀ d ∈ sh, 0 < d) → mode = .reduced → res.bond = 1) := by
+  obtain ⟨_, h2, _, h4, h5⟩ := matricize_ok sh [] r h
+  have h6 : prod (r.map (dimAt sh)) = prod sh := by simpa [prod] using h5
+  refine ⟨_, _, h2, by simpa using h4, tensorQR_some mode sh [] r h hk, rfl, rfl, rfl, ?_, ?_⟩
+  · cases mode <;> simp [qrBond, prod, h6]
+  · intro hpos hm
+    have := prod_pos sh hpos
+    subst hm
+    simp only [qrBond, List.map_nil, prod, h6]
+    omega
+
+/-- **Empty second side**: the matricisation is a `size × 1` column; REDUCED gives bond
+    `min size 1` (1 unless a leg has dimension 0), FULL gives bond `size`, and KEEP is rejected
+    (`np.prod(())` is the float 1.0, which `np.pad` refuses as a pad width). -/
+theorem empty_side_r (mode : Mode) (sh q : List Nat) (h : Bipartition sh q []) :
+    ∃ qd, dimsOf sh q = some qd ∧ qd.Perm sh ∧
+      match mode with
+      | .keep => tensorQR mode sh q [] = none
+      | .reduced => tensorQR mode sh q [] =
+          some ⟨⟨qd ++ [min (prod sh) 1], q.map Leg.orig ++ [Leg.bond]⟩,
+                ⟨[min (prod sh) 1], [Leg.bond]⟩, min (prod sh) 1, 0⟩
+      | .full => tensorQR mode sh q [] =
+          some ⟨⟨qd ++ [prod sh], q.map Leg.orig ++ [Leg.bond]⟩, ⟨[prod sh], [Leg.bond]⟩, prod sh, 0⟩ := by
+  obtain ⟨h1, _, _, h4, h5⟩ := matricize_ok sh q [] h
+  have h6 : prod (q.map (dimAt sh)) = prod sh := by simpa [prod] using h5
+  refine ⟨_, h1, by simpa using h4, ?_⟩
+  cases mode
+  · simp only
+    rw [tensorQR_some .reduced sh q [] h (by simp)]
+    simp [qrBond, qrPad, prod, h6]
+  · simp only
+    rw [tensorQR_some .full sh q [] h (by simp)]
+    simp [qrBond, qrPad, h6]
+  · exact tensorQR_keep_empty sh q h
+
+/-- **SVD: shapes, leg orders and bond dimensions.**  REDUCED: all three bonds `min m n`;
+    FULL and KEEP (which NumPy treats alike): U gets `m` columns, Vh `n` rows, `S` has `min m n`
+    entries — so the factors contract back through their leading `len(S)` columns / rows. -/
+theorem svd_shapes (mode : Mode) (sh u v : List Nat) (h : Bipartition sh u v) :
+    ∃ ud vd res, dimsOf sh u = some ud ∧ dimsOf sh v = some vd ∧ tensorSVD mode sh u v = some res ∧
+      res.u.shape = ud ++ [(svdBonds mode (prod ud) (prod vd)).1] ∧
+      res.u.legs = u.map Leg.orig ++ [Leg.bond] ∧
+      res.sLen = min (prod ud) (prod vd) ∧
+      res.vh.shape = (svdBonds mode (prod ud) (prod vd)).2.2 :: vd ∧
+      res.vh.legs = Leg.bond :: v.map Leg.orig ∧
+      res.sLen ≤ (svdBonds mode (prod ud) (prod vd)).1 ∧
+      res.sLen ≤ (svdBonds mode (prod ud) (prod vd)).2.2 := by
+  obtain ⟨h1, h2, _⟩ := matricize_ok sh u v h
+  refine ⟨_, _, _, h1, h2, tensorSVD_eq mode sh u v h, rfl, rfl, ?_, rfl, rfl, ?_, ?_⟩ <;>
+    cases mode <;> simp [svdBonds]
+
+/-- **Truncated SVD**: keeping `kept` singular values (`1 ≤ kept ≤ min m n`, property C10) cuts
+    exactly the bond: `U : ud ++ [kept]`, `S : kept`, `Vh : kept :: vd`. -/
+theorem truncated_svd_shapes (sh u v : List Nat) (kept : Nat) (h : Bipartition sh u v) :
+    ∃ ud vd res, dimsOf sh u = some ud ∧ dimsOf sh v = some vd ∧
+      truncatedSVD sh u v kept = some res ∧
+      (kept ≤ min (prod ud) (prod vd) →
+        res.u.shape = ud ++ [kept] ∧ res.sLen = kept ∧ res.vh.shape = kept :: vd ∧
+        res.u.legs = u.map Leg.orig ++ [Leg.bond] ∧ res.vh.legs = Leg.bond :: v.map Leg.orig) := by
+  obtain ⟨h1, h2, _⟩ := matricize_ok sh u v h
+  refine ⟨_, _, _, h1, h2, truncatedSVD_some sh u v kept h, ?_⟩
+  intro hk
+  have : min kept (min (prod (u.map (dimAt sh))) (prod (v.map (dimAt sh)))) = kept := by omega
+  simp [this]
+
+/-- Invalid leg lists are rejected by both decompositions. -/
+theorem rejects_invalid (mode : Mode) (sh q r : List Nat) (h : ¬ Bipartition sh q r) :
+    tensorQR mode sh q r = none ∧ tensorSVD mode sh q r = none := by
+  have := matricize_none_of_not sh q r h
+  simp [tensorQR, tensorSVD, this]
+
+/-- In every contraction mode the singular values are absorbed exactly once in total. -/
+theorem contr_modes_absorb_once (c : ContrMode) : (absorb c).1 + (absorb c).2 = 2 := by
+  cases c <;> rfl
+
+/-! ### Abstract matrix facts (numerical clauses: by contract of `numpy.linalg.qr/svd`) -/
+
+open Matrix in
+/-- `[Q 0]·[R;0] = Q·R`: the zero padding of KEEP does not change the contraction. -/
+theorem keep_pad_sound {R : Type*} {m n k d : Type*} [Fintype k] [Fintype d] [Semiring R]
+    (Q : Matrix m k R) (Rm : Matrix k n R) :
+    fromCols Q (0 : Matrix m d R) * fromRows Rm (0 : Matrix d n R) = Q * Rm :=
+  pad_mul_pad Q Rm
+
+open Matrix in
+/-- A zero-padded isometry is a partial isometry: its Gram matrix is the block projector
+    `diag(1, 0)`, in particular idempotent. -/
+theorem q_keep_partial_isometry {R : Type*} {m k d : Type*} [Fintype m] [Fintype k] [Fintype d]
+    [DecidableEq k] [CommRing R] [StarRing R] (Q : Matrix m k R) (h : Qᴴ * Q = 1) :
+    (fromCols Q (0 : Matrix m d R))ᴴ * fromCols Q (0 : Matrix m d R) =
+        fromBlocks (1 : Matrix k k R) 0 0 (0 : Matrix d d R) ∧
+    ((fromCols Q (0 : Matrix m d R))ᴴ * fromCols Q (0 : Matrix m d R)) *
+      ((fromCols Q (0 : Matrix m d R))ᴴ * fromCols Q (0 : Matrix m d R)) =
+      (fromCols Q (0 : Matrix m d R))ᴴ * fromCols Q (0 : Matrix m d R) :=
+  ⟨pad_gram Q h, pad_gram_idempotent Q h⟩
+
+open Matrix in
+/-- The contraction modes give the same product: `U(ΣV) = (UΣ)V = (U√Σ)(√ΣV)`. -/
+theorem contr_modes_same_product {R : Type*} {m n k : Type*} [Fintype k] [DecidableEq k]
+    [CommSemiring R] (U : Matrix m k R) (V : Matrix k n R) (s r : k → R)
+    (hr : ∀ i, r i * r i = s i) :
+    U * (diagonal s * V) = (U * diagonal s) * V ∧
+    (U * diagonal r) * (diagonal r * V) = U * (diagonal s * V) :=
+  contr_same U V s r hr
+
+/-! ### Non-vacuity: concrete instances -/
+
+-- a permuted bipartition of an order-4 tensor with a dimension-1 leg
+example : Bipartition [2, 3, 1, 5] [3, 0] [2, 1] := by decide
+example : tensorQR .reduced [2, 3, 1, 5] [3, 0] [2, 1] =
+    some ⟨⟨[5, 2, 3], [.orig 3, .orig 0, .bond]⟩, ⟨[3, 1, 3], [.bond, .orig 2, .orig 1]⟩, 3, 0⟩ := by
+  decide
+-- wide matricisation (m = 2 < n = 12): FULL keeps m, KEEP pads up to n
+example : tensorQR .full [2, 3, 4] [0] [2, 1] =
+    some ⟨⟨[2, 2], [.orig 0, .bond]⟩, ⟨[2, 4, 3], [.bond, .orig 2, .orig 1]⟩, 2, 0⟩ := by decide
+example : tensorQR .keep [2, 3, 4] [0] [2, 1] =
+    some ⟨⟨[2, 12], [.orig 0, .bond]⟩, ⟨[12, 4, 3], [.bond, .orig 2, .orig 1]⟩, 12, 10⟩ := by decide
+-- tall matricisation: FULL blows the bond up to m = 12
+example : (tensorQR .full [2, 3, 4] [2, 1] [0]).map (·.bond) = some 12 := by decide
+-- KEEP, single leg split off: Q has the input's shape
+example : (tensorQR .keep [2, 3, 4] [0, 1] [2]).map (·.q.shape) = some [2, 3, 4] := by decide
+example : (tensorQR .keep [4, 3, 2] [0, 1] [2]).map (fun r => (r.q.shape, r.pad)) = some ([4, 3, 2], 0) := by
+  decide
+-- empty sides
+example : Bipartition [2, 3] [] [1, 0] ∧ Bipartition [2, 3] [1, 0] [] := by decide
+example : (tensorQR .keep [2, 3] [] [1, 0]).map (·.q.shape) = some [6] := by decide
+example : tensorQR .keep [2, 3] [1, 0] [] = none := by decide
+example : (tensorQR .full [2, 3] [1, 0] []).map (·.r.shape) = some [6] := by decide
+-- invalid leg lists
+example : ¬ Bipartition [2, 3, 4] [0, 0] [1] ∧ ¬ Bipartition [2, 3, 4] [0] [1] ∧
+    ¬ Bipartition [2, 3, 4] [0, 3] [1] := by decide
+example : tensorQR .reduced [2, 3, 4] [0, 0] [1] = none := by decide
+-- SVD: KEEP behaves as FULL
+example : tensorSVD .keep [2, 3, 4] [0] [2, 1] = tensorSVD .full [2, 3, 4] [0] [2, 1] := by decide
+example : (tensorSVD .full [2, 3, 4] [0] [2, 1]).map (fun r => (r.u.shape, r.sLen, r.vh.shape)) =
+    some ([2, 2], 2, [12, 4, 3]) := by decide
+example : (truncatedSVD [2, 3, 4] [2, 1] [0] 1).map (fun r => (r.u.shape, r.sLen, r.vh.shape)) =
+    some ([4, 3, 1], 1, [1, 2]) := by decide
+-- hypotheses of the matrix lemmas are satisfiable: a 2×1 isometry over ℤ, `r*r = s`
+example : ((Matrix.of ![![1], ![0]] : Matrix (Fin 2) (Fin 1) ℤ).conjTranspose *
+    (Matrix.of ![![1], ![0]] : Matrix (Fin 2) (Fin 1) ℤ)) = 1 := by decide
+example : ∀ i : Fin 2, (![2, 3] : Fin 2 → ℤ) i * ![2, 3] i = ![4, 9] i := by decide
+
 end Ptn.C11
